@@ -52,6 +52,18 @@ CLAIMED = {
              "quantity with the right constant and fail with Err, and a BitMachine cannot be built any other way.",
         note=TRUST + "Does not decide that Frame operations stay inside the frame they are given, nor the base case for jets.",
         design="3/C07"),
+    "C08": dict(
+        technique="decision-table extraction by path enumeration over enum/bool switches in MIR; dominator/provenance rules for the pruning pipeline",
+        text="Decides three structural clauses: the pruned program's commitment root is a copy (conversion copies the CMR); the "
+             "decision tables that drive pruning are the specified ones (tracker: case/assertion side taken ↦ left/right set keyed "
+             "on the node's IHR, read from the node's input frame captured before the node ran, forwarded unconsumed by wrapping "
+             "trackers; prune_case: (left seen, right seen) ↦ Hide; convert: Hide ↦ assertion with the hidden child's CMR on the "
+             "hidden side); and the pipeline order (size machine, execute with the caller's tracker and return its failure, prune "
+             "with that tracker, re-finalise, prune witnesses against the finalised re-inferred target type). Behaviour "
+             "preservation, anti-DoS acceptance by C and idempotence are runtime relations and are not decided.",
+        note=TRUST + "A sub-agent reported a genuine clean-tree failure of this property outside the decided clauses (pruning does not always "
+             "yield principal types; findings/C08_prune_not_principal_clean_tree.rs); see DESIGN.md.",
+        design="3/C08"),
     "C09": dict(
         technique="MIR provenance/non-interference analysis + sibling-table comparison (custom rustc_private driver)",
         text="Decides, for every constructor, conversion and match arm that can write a node's commitment root, that the "
